@@ -5,6 +5,13 @@
    exact factors with their shapes and names.  The factors are compared exactly as computation
    skeletons (same field operations, same sqrt calls, same comparisons); the eight tensor/view
    forms and the Matrix routine are cross-checked inside the harness.
+   FLOAT oracle: (8 4 which (n0 n1) rows cols (x ...) scale), which 1/2/3 = Cholesky/LDL^T/QR on the
+   f64 matrix (num/den)*2^scale: the harness checks the defining identities on f64 (1e-9 relative;
+   R's sub-diagonal at most 1e-12*|A|; exact zeros / unit diagonal; all entry points bit for bit),
+   the model predicts presence exactly over the rationals.  Inputs: well-conditioned SPD
+   (B*B^T + nI), their negatives / one negative diagonal entry (absent), scaled by 2^520 and
+   2^-540; diagonally dominant symmetric for LDL^T; QR: full-column-rank random and GRADED
+   columns (sub-diagonal part 1e-8 .. 1e-10 relative to the diagonal entry), N > M shapes.
    Families: symmetric random, B*B^T + cI, rank-deficient B*B^T, indefinite, asymmetric, inputs
    crafted (by running the same skeleton here) so that the pivot of row/column k is exactly zero or
    just below / above zero, non-square shapes; QR: every shape M>=N and N>M up to 5x5 (larger for
@@ -165,7 +172,7 @@ def square_family(rng, n, fam):
 
 
 def gen(tier, rng):
-    cases = list(_gen(tier, rng))
+    cases = list(_gen(tier, rng)) + list(_float_cases(tier, rng))
     rng.shuffle(cases)
     return cases
 
@@ -264,6 +271,91 @@ def _gen(tier, rng):
             for _ in range(4 * rep):
                 for m in qr_inputs(r, c, Rat):
                     yield case(3, Rat, names_of(rng), m)
+
+
+def frac_rank(m):
+    """column rank of a matrix of Fractions"""
+    m = [list(r) for r in m]
+    rank = 0
+    rows, cols = len(m), len(m[0])
+    for c in range(cols):
+        piv = next((r for r in range(rank, rows) if m[r][c] != 0), None)
+        if piv is None:
+            continue
+        m[rank], m[piv] = m[piv], m[rank]
+        for r in range(rank + 1, rows):
+            f = m[r][c] / m[rank][c]
+            m[r] = [x - f * y for x, y in zip(m[r], m[rank])]
+        rank += 1
+    return rank
+
+
+def fcase(which, names, m, scale=0):
+    rows, cols = len(m), len(m[0])
+    enc = [[Fraction(x).numerator, Fraction(x).denominator] for r in m for x in r]
+    return sx([8, 4, which, list(names), rows, cols, enc, scale])
+
+
+def _float_cases(tier, rng):
+    quick = tier == "quick"
+    rep = 1 if quick else 6
+    # ---- Cholesky / LDL^T
+    for n in range(1, 7):
+        for _ in range(12 * rep):
+            spd = bbt(rng, n, c=n + 1)
+            for scale in (0, 520, -540, rng.choice([100, -100, 37])):
+                yield fcase(1, names_of(rng), spd, scale)
+                yield fcase(2, names_of(rng), spd, scale)
+            neg = [[-x for x in r] for r in spd]
+            yield fcase(1, names_of(rng), neg, rng.choice([0, 520, -540]))
+            yield fcase(2, names_of(rng), neg, 0)
+            k = rng.randrange(n)
+            ind = [list(r) for r in spd]
+            ind[k][k] = -ind[k][k] - 1
+            yield fcase(1, names_of(rng), ind, 0)
+            yield fcase(2, names_of(rng), ind, 0)
+            # diagonally dominant symmetric (either sign on the diagonal): LDL^T exists
+            dd = sym(rng, n, -2, 3)
+            for i in range(n):
+                dd[i][i] = rng.choice([-1, 1]) * (3 * n + rng.randrange(1, 5))
+            yield fcase(2, names_of(rng), dd, rng.choice([0, 520, -540]))
+            yield fcase(1, names_of(rng), dd, 0)
+            z0 = [list(r) for r in dd]
+            z0[0][0] = 0
+            yield fcase(2, names_of(rng), z0, 0)
+            yield fcase(1, names_of(rng), z0, 0)
+    for (r, c) in [(2, 3), (3, 2), (1, 4)]:
+        m = [[rng.randrange(-3, 4) for _ in range(c)] for _ in range(r)]
+        yield fcase(1, (0, 1), m)
+        yield fcase(2, (0, 1), m)
+    # ---- QR: the documented graded examples
+    e8, e9 = Fraction(1, 10 ** 8), Fraction(1, 10 ** 9)
+    yield fcase(3, (0, 1), [[1, 2], [e8, 3]])
+    yield fcase(3, (1, 0), [[1, 2, 3], [e9, 1, 1], [e9, e9, 1]])
+    yield fcase(3, (0, 1), [[1], [e8]])
+    yield fcase(3, (0, 1), [[-2, 1], [e9, 1], [-e9, 5]])
+    for (r, c) in [(r, c) for r in range(1, 7) for c in range(1, 7)]:
+        if c > r:
+            yield fcase(3, names_of(rng), [[rng.randrange(-3, 4) for _ in range(c)] for _ in range(r)])
+            continue
+        for _ in range(4 * rep):
+            # random full column rank
+            while True:
+                m = [[Fraction(rng.randrange(-5, 6), rng.choice([1, 1, 2, 4])) for _ in range(c)] for _ in range(r)]
+                if frac_rank(m) == c:
+                    break
+            yield fcase(3, names_of(rng), m)
+            if r < 2:
+                continue
+            # graded: below the diagonal tiny relative to the diagonal entry, in the first g columns
+            eps = Fraction(1, 10 ** rng.choice([8, 9, 10, 12]))
+            g = rng.randrange(1, c + 1)
+            gm = [[Fraction(rng.randrange(1, 6)) * rng.choice([1, -1]) for _ in range(c)] for _ in range(r)]
+            for j in range(g):
+                for i in range(j + 1, r):
+                    gm[i][j] = eps * rng.randrange(1, 4) * rng.choice([1, -1])
+            if frac_rank(gm) == c:
+                yield fcase(3, names_of(rng), gm)
 
 
 def nontrivial(case, model_out):
